@@ -248,3 +248,14 @@ def pack(x_flat, cfg, dtype=torch.float64):
 
 def total_in(cfg):
     return sum(int(np.prod(s)) for s in input_shapes(cfg))
+
+
+def make_flat(recipe, cfg, N, C):
+    """Content for all inputs of a configuration as (N,C,total_in): every input tensor is generated in its own
+    geometry (so that spatially structured recipes - gratings, ramps - are images, not reshaped vectors)."""
+    from pwv import core
+    parts = []
+    for i, s in enumerate(input_shapes(cfg)):
+        a = core.make({**recipe, 'seed': int(recipe['seed']) + 7919 * i}, (N, C) + tuple(s))
+        parts.append(a.reshape(N, C, -1))
+    return np.concatenate(parts, axis=2)
